@@ -359,6 +359,12 @@ func (e *Enc) binop(st *State, op token.Token, a, b *Val, xt types.Type, rt type
 			return intVal(rt, fmt.Sprintf("(div %s %s)", x, pow2(atoi(y))))
 		}
 		return intVal(rt, fmt.Sprintf("(bitshr %s %s)", x, y))
+	case token.AND, token.OR, token.XOR, token.AND_NOT:
+		if r, ok := bitwiseSmall(rt, op, x, y); ok {
+			return intVal(rt, r)
+		}
+	}
+	switch op {
 	case token.AND:
 		// x & (2^k - 1)
 		for _, p := range [][2]string{{x, y}, {y, x}} {
@@ -653,4 +659,43 @@ func (e *Enc) selectInstr(fr *Frame, st *State, x *ssa.Select) {
 		return
 	}
 	e.unsupported("select at %s", e.w.posOf(x.Pos()))
+}
+
+// bitwiseSmall gives the exact value of a bitwise operation on 8-bit unsigned operands by bit
+// decomposition (bit k of x is (x div 2^k) mod 2), and folds x|0, x^0, x&^0.
+func bitwiseSmall(rt types.Type, op token.Token, x, y string) (string, bool) {
+	if op != token.AND {
+		if y == "0" {
+			return x, true
+		}
+		if x == "0" && op != token.AND_NOT {
+			return y, true
+		}
+	}
+	bits, signed, ok := intInfo(rt)
+	if !ok || signed || bits != 8 {
+		return "", false
+	}
+	bit := func(v string, k int) string {
+		if k == 0 {
+			return fmt.Sprintf("(= (mod %s 2) 1)", v)
+		}
+		return fmt.Sprintf("(= (mod (div %s %s) 2) 1)", v, pow2(k))
+	}
+	var terms []string
+	for k := 0; k < 8; k++ {
+		var c string
+		switch op {
+		case token.AND:
+			c = fmt.Sprintf("(and %s %s)", bit(x, k), bit(y, k))
+		case token.OR:
+			c = fmt.Sprintf("(or %s %s)", bit(x, k), bit(y, k))
+		case token.XOR:
+			c = fmt.Sprintf("(xor %s %s)", bit(x, k), bit(y, k))
+		default:
+			c = fmt.Sprintf("(and %s (not %s))", bit(x, k), bit(y, k))
+		}
+		terms = append(terms, fmt.Sprintf("(ite %s %s 0)", c, pow2(k)))
+	}
+	return "(+ " + strings.Join(terms, " ") + ")", true
 }
